@@ -127,6 +127,41 @@ loop(F_CS, "CachedStore.flush", 1, modifies="world",
 # ghost assertion at the place where flush marks a key clean
 ghost(F_CS, "CachedStore.flush", "self._dirty_keys.discard(key)", "_c16_clean_check(self, key)", where="before")
 
+# LFUEviction.evict: for key, count in self._counts.items(): if count == min_count: del; return key
+loop(F_EP, "LFUEviction.evict", 1, types={"key": Str, "count": Int}, inv=[
+    ("no-visited-key-has-the-minimal-count", lambda L: forall(Str, lambda k: implies(
+        contains(L.visited, k), L.self._counts.get(k, 0) != L.min_count)))])
+
+# TTLEviction.evict: for key, insert_time in list(self._insert_times.items()): if expired: del; return key
+loop(F_EP, "TTLEviction.evict", 1, types={"key": Str, "insert_time": Real}, inv=[
+    ("no-visited-key-is-expired", lambda L: forall(Str, lambda k: implies(
+        contains(L.visited, k), L.now - L.self._insert_times.get(k, 0.0) < L.self._ttl)))])
+
+# SoftTTLCache._store:  while len(self._cache) >= self._cache_capacity: self._evict_lru()
+F_ST = "happysimulator/components/datastore/soft_ttl_cache.py"
+
+
+def _st_order_is_keys(o):
+    return mk_bool(o._access_order._ty.dt.dom(o._access_order.term) == sdom(o._cache))
+
+
+loop(F_ST, "SoftTTLCache._store", 1,
+     modifies=[("SoftTTLCache", "_cache"), ("SoftTTLCache", "_access_order"), ("SoftTTLCache", "_evictions")],
+     decreases=lambda L: slen(L.self._cache),
+     inv=[
+         ("order-is-keys", lambda L: _st_order_is_keys(L.self)),
+         ("key-still-absent", lambda L: Not(has(L.self._cache, L.key))),
+         ("only-shrinks", lambda L: mk_bool(z3.IsSubset(sdom(L.self._cache), sdom(L.old(L.self)._cache)))),
+         ("kept-entries-unchanged", lambda L: forall(Str, lambda k: implies(
+             has(L.self._cache, k), mk_bool(mval(L.self._cache, k) == mval(L.old(L.self)._cache, k))))),
+         ("size-only-shrinks", lambda L: slen(L.self._cache) <= slen(L.old(L.self)._cache)),
+         ("no-eviction-unless-full", lambda L: implies(
+             slen(L.old(L.self)._cache) < L.self._cache_capacity,
+             mk_bool(sdom(L.self._cache) == sdom(L.old(L.self)._cache)))),
+     ])
+# ghost assertion where get() serves an entry on the coalesced-refresh path
+ghost(F_ST, "SoftTTLCache.get", "return self._cache[key].value", "_c16_served_check(self, key)", where="before")
+
 # ghost ticket: number of writes (put / delete) to a key that have *started* on this cache
 ghost(F_CS, "CachedStore.put", "", "self.g_writes[key] = self.g_writes.get(key, 0) + 1", where="entry")
 ghost(F_CS, "CachedStore.delete", "", "self.g_writes[key] = self.g_writes.get(key, 0) + 1", where="entry")
@@ -237,6 +272,21 @@ policy_set_clauses(FIFOEviction, lambda o: odom(o._order),
     access=[("order-untouched", lambda s: unchanged(s, s.self))],
     evict=[("victim-is-oldest-insert", _is_oldest("_order"))])
 
+# ---- LFU: per-key counters, victim = a key with the minimal count
+CNT = Map(Str, Int)
+cls(LFUEviction, fields={"_counts": CNT, "_min_count": Int},
+    inv=[("counts-positive", lambda o: forall(Str, lambda k: implies(has(o._counts, k), o._counts.get(k, 1) >= 1)))])
+policy_set_clauses(LFUEviction, lambda o: sdom(o._counts),
+    access=[("hit-counts-once", lambda s: forall(Str, lambda j: s.self._counts.get(j, 0)
+        == s.old(s.self)._counts.get(j, 0) + ite(mk_bool(kt(j) == kt(s.key)) & has(s.old(s.self)._counts, j), 1, 0)))],
+    insert=[("new-key-counts-one", lambda s: s.self._counts.get(s.key, 0) == 1),
+            ("other-counts-kept", lambda s: forall(Str, lambda j: implies(
+                mk_bool(kt(j) != kt(s.key)), s.self._counts.get(j, 0) == s.old(s.self)._counts.get(j, 0))))],
+    evict=[("victim-has-minimal-count", lambda s: True if s.result is None else forall(Str, lambda j: implies(
+        has(s.old(s.self)._counts, j), s.old(s.self)._counts.get(s.result, 0) <= s.old(s.self)._counts.get(j, 0)))),
+           ("other-counts-kept", lambda s: True if s.result is None else forall(Str, lambda j: implies(
+               mk_bool(kt(j) != kt(s.result)), s.self._counts.get(j, 0) == s.old(s.self)._counts.get(j, 0))))])
+
 # ---- Random: set of keys, victim = arbitrary element (trusted random.Random.choice)
 cls(_random.Random, fields={}).alloc = False
 stub_of(_random.Random, "choice", returns=Str, modifies=[], ensures=[lambda s: contains(s.seq, s.result)])
@@ -258,6 +308,24 @@ def SymStrOf(t):
 
 cls(RandomEviction, fields={"_keys": SSET, "_rng": Ref(_random.Random)}, const=["_rng"])
 policy_set_clauses(RandomEviction, lambda o: sdom(o._keys), extra_uses=RNG)
+
+# ---- TTL: insert times; victim = an expired key if there is one (the "else oldest" choice is over-approximated
+# by an arbitrary tracked key: only the set clauses are claimed for it).  The clock is an arbitrary callable.
+cls(TTLEviction, fields={"_ttl": Real, "_clock_func": Fn(Real, "clock"), "_insert_times": Map(Str, Real)},
+    const=["_ttl", "_clock_func"], inv=[("ttl-positive", lambda o: o._ttl > 0)])
+policy_set_clauses(TTLEviction, lambda o: sdom(o._insert_times),
+    access=[("insert-times-untouched", lambda s: unchanged(s, s.self))])
+
+# ---- Sampled LRU: victim = least recently used key of a random sample (trusted random.Random.sample; the choice
+# inside the sample is over-approximated by an arbitrary member: only the set clauses are claimed)
+cls(SampledLRUEviction, fields={"_sample_size": Int, "_rng": Ref(_random.Random), "_access_times": CNT, "_clock": Int},
+    const=["_rng", "_sample_size"], inv=[("sample-size-positive", lambda o: o._sample_size >= 1)])
+policy_set_clauses(SampledLRUEviction, lambda o: sdom(o._access_times), extra_uses=RNG,
+    access=[("logical-clock-never-goes-back", lambda s: s.self._clock >= s.old(s.self)._clock),
+            ("hit-gets-the-newest-stamp", lambda s: implies(has(s.old(s.self)._access_times, s.key),
+                s.self._access_times.get(s.key, 0) == s.self._clock))],
+    insert=[("new-key-gets-the-newest-stamp", lambda s: (s.self._access_times.get(s.key, 0) == s.self._clock)
+             & (s.self._clock == s.old(s.self)._clock + 1))])
 
 # ---- SLRU: probationary + protected segments
 cls(SLRUEviction, fields={"_protected_ratio": Real, "_probationary": ODICT, "_protected": ODICT},
@@ -549,3 +617,149 @@ fn(CachedStore, "invalidate_all", uses=POLICY_IFACE + CS_HELPERS, focus=CS_FOCUS
 fn(CachedStore, "flush", uses=POLICY_IFACE + CS_HELPERS + KV_API, focus=CS_FOCUS, requires=[UNBOUNDED_BACKING],
    yields=Yields(at_yield=[("delay-nonnegative", lambda s, y: y >= 0)], **CS_YIELDS),
    ensures=[("returns-a-count", lambda s: s.result >= 0)])
+
+# ============================================================================ C. SoftTTLCache
+from happysimulator.components.datastore.soft_ttl_cache import SoftTTLCache, CacheEntry  # noqa: E402
+import happysimulator.components.datastore.soft_ttl_cache as _st_mod  # noqa: E402
+
+ENTRY = valueclass("CacheEntry", [CacheEntry], [("value", Any), ("cached_at", TIME)])
+EMAP = Map(Str, ENTRY)
+
+
+def e_at(d, k):
+    """cached_at (ns) of the entry d[k] (raw term)"""
+    return TIME.dt.nanoseconds(ENTRY.dt.cached_at(mval(d, k)))
+
+
+def e_val(d, k):
+    return ENTRY.dt.value(mval(d, k))
+
+
+fn(CacheEntry, "is_fresh", self_ty=ENTRY, args={"now": TIME, "soft_ttl": DURATION}, inv=False, ensures=[
+    ("fresh-iff-younger-than-soft-ttl", lambda s: iff(s.result, ns(s.now) - ns(s.self.cached_at) < ns(s.soft_ttl)))])
+fn(CacheEntry, "is_valid", self_ty=ENTRY, args={"now": TIME, "hard_ttl": DURATION}, inv=False, ensures=[
+    ("valid-iff-younger-than-hard-ttl", lambda s: iff(s.result, ns(s.now) - ns(s.self.cached_at) < ns(s.hard_ttl)))])
+
+
+def _st_cap_ok(o):
+    c = o._cache_capacity
+    if c is None:
+        return True
+    return (c >= 1) & (slen(o._cache) <= c)
+
+
+cls(SoftTTLCache, fields={"_soft_ttl": DURATION, "_hard_ttl": DURATION, "_backing_store": Ref(KVStore),
+                          "_cache_capacity": Opt(Int), "_cache_read_latency": Real, "_cache": EMAP,
+                          "_refreshing_keys": SSET, "_access_order": OLIST, "_reads": Int, "_fresh_hits": Int,
+                          "_stale_hits": Int, "_hard_misses": Int, "_background_refreshes": Int,
+                          "_refresh_successes": Int, "_coalesced_requests": Int, "_evictions": Int},
+    const=["_soft_ttl", "_hard_ttl", "_backing_store", "_cache_capacity", "_cache_read_latency"],
+    inv=[("ttl-shape", lambda o: (ns(o._soft_ttl) >= 0) & (ns(o._soft_ttl) <= ns(o._hard_ttl))),
+         ("never-above-capacity", _st_cap_ok),
+         ("lru-order-tracks-exactly-the-cached-keys", _st_order_is_keys),
+         ("read-latency-nonneg", lambda o: o._cache_read_latency >= 0)])
+
+
+def _served_check(self, key):
+    """ghost assertion: an entry handed to the caller is younger than the hard TTL at that moment"""
+    oblige("get/served-entry-is-within-hard-ttl",
+           mk_bool(num(now_ns(self)) - e_at(self._cache, key) < num(ns(self._hard_ttl))), kind="post")
+
+
+_st_mod._c16_served_check = _served_check
+ST_FOCUS = lambda s: [s.self._backing_store]  # noqa: E731
+ST_UNBOUNDED = ("backing-store-unbounded", lambda s: s.self._backing_store._capacity is None)
+
+
+def _st_others_same(s, k):
+    return forall(Str, lambda j: implies(mk_bool(kt(j) != kt(k)) & has(s.self._cache, j),
+                                         has(s.old(s.self)._cache, j)
+                                         & mk_bool(mval(s.self._cache, j) == mval(s.old(s.self)._cache, j))))
+
+
+fn(SoftTTLCache, "_touch_for_lru", args={"key": Str}, ensures=[
+    ("cached-set-unchanged", lambda s: unchanged(s, s.self, "_cache")
+        & mk_bool(odom(s.self._access_order) == odom(s.old(s.self)._access_order))),
+    ("touched-key-becomes-most-recent", lambda s: forall(Str, lambda j: implies(
+        has_o(s.self._access_order, s.key) & has_o(s.self._access_order, j) & mk_bool(kt(j) != kt(s.key)),
+        mk_bool(opos(s.self._access_order, j) < opos(s.self._access_order, s.key)))))])
+
+fn(SoftTTLCache, "_evict_lru", ensures=[
+    ("evicts-one-entry-when-nonempty", lambda s: implies(slen(s.old(s.self)._cache) > 0,
+        slen(s.self._cache) == slen(s.old(s.self)._cache) - 1)),
+    ("only-removes", lambda s: mk_bool(z3.IsSubset(sdom(s.self._cache), sdom(s.old(s.self)._cache)))),
+    ("kept-entries-unchanged", lambda s: forall(Str, lambda k: implies(
+        has(s.self._cache, k), mk_bool(mval(s.self._cache, k) == mval(s.old(s.self)._cache, k))))),
+    ("victim-is-least-recently-used", lambda s: forall(Str, lambda v: forall(Str, lambda j: implies(
+        has(s.old(s.self)._cache, v) & Not(has(s.self._cache, v)) & has(s.old(s.self)._cache, j),
+        mk_bool(opos(s.old(s.self)._access_order, v) <= opos(s.old(s.self)._access_order, j))))))])
+
+ST_INV_CLAUSES = [("inv-never-above-capacity", lambda s: _st_cap_ok(s.self)),
+                  ("inv-lru-order-tracks-exactly-the-cached-keys", lambda s: _st_order_is_keys(s.self))]
+ST_STORE = [(SoftTTLCache, "_store")]
+
+fn(SoftTTLCache, "_store", args={"key": Str, "value": Any}, modifies=["_cache", "_access_order", "_evictions"],
+   requires=ST_INV_CLAUSES, ensures=ST_INV_CLAUSES + [
+    ("entry-holds-value-stamped-now", lambda s: has(s.self._cache, s.key)
+        & mk_bool(e_val(s.self._cache, s.key) == s.value.t)
+        & mk_bool(e_at(s.self._cache, s.key) == num(now_ns(s.self)))),
+    ("other-entries-kept-or-evicted", lambda s: _st_others_same(s, s.key)),
+    ("eviction-only-when-full", lambda s: True if s.self._cache_capacity is None else implies(
+        has(s.old(s.self)._cache, s.key) | (slen(s.old(s.self)._cache) < s.self._cache_capacity),
+        mk_bool(sdom(s.self._cache) == with_(sdom(s.old(s.self)._cache), s.key)))),
+    ("unbounded-never-evicts", lambda s: True if s.self._cache_capacity is not None else
+        mk_bool(sdom(s.self._cache) == with_(sdom(s.old(s.self)._cache), s.key))),
+])
+
+fn(SoftTTLCache, "invalidate", args={"key": Str}, ensures=[
+    ("key-gone", lambda s: Not(has(s.self._cache, s.key))),
+    ("only-key-removed", lambda s: mk_bool(sdom(s.self._cache) == without(sdom(s.old(s.self)._cache), s.key))),
+    ("others-same", lambda s: _st_others_same(s, s.key))])
+
+fn(SoftTTLCache, "invalidate_all", ensures=[
+    ("cache-empty", lambda s: mk_bool(sdom(s.self._cache) == EMPTY_S) & (slen(s.self._cache) == 0)),
+    ("no-refresh-tracked", lambda s: mk_bool(sdom(s.self._refreshing_keys) == EMPTY_S))])
+
+
+def _delay(y):
+    return y[0] if isinstance(y, tuple) else y
+
+
+def _st_get_result(s):
+    """a hit (entry younger than the hard TTL when get() is called) returns the entry's value; otherwise, unless
+    a refresh of the key is in flight, the value the backing store holds when the fetch completes"""
+    o = s.old(s.self)
+    hit = has(o._cache, s.key) & mk_bool(num(now_ns_old(s)) - e_at(o._cache, s.key) < num(ns(s.self._hard_ttl)))
+    # coalesced with a refresh in flight: the ghost assertion speaks about what is served on that path
+    fetch = Not(hit) & Not(has(o._refreshing_keys, s.key))
+    b = s.pre(s.self._backing_store)
+    if s.result is None:
+        return Not(hit) & implies(fetch, Not(has(b._data, s.key)))
+    return implies(hit, mk_bool(s.result.t == e_val(o._cache, s.key))) \
+        & implies(fetch, has(b._data, s.key) & mk_bool(s.result.t == mval(b._data, s.key)))
+
+
+def now_ns_old(s):
+    return s.old(s.self._clock)._current_time.nanoseconds
+
+
+fn(SoftTTLCache, "get", args={"key": Str}, uses=KV_API + ST_STORE, focus=ST_FOCUS, requires=[ST_UNBOUNDED],
+   yields=Yields(at_yield=[("delay-nonnegative", lambda s, y: _delay(y) >= 0)],
+                 stable=[("Entity", "_clock")],
+                 rely=[lambda s, b, y: now_ns(s.self) >= b.pre(s.self._clock)._current_time.nanoseconds]),
+   ensures=[
+    ("hit-or-current-backing-value", _st_get_result),
+    ("fetched-value-is-cached-stamped-now", lambda s: True if s.result is None else implies(
+        Not(has(s.pre(s.self)._cache, s.key)) & has(s.self._cache, s.key),
+        mk_bool(e_at(s.self._cache, s.key) == num(now_ns(s.self))))),
+])
+
+fn(SoftTTLCache, "put", args={"key": Str, "value": Any}, uses=KV_API + ST_STORE, focus=ST_FOCUS, requires=[ST_UNBOUNDED],
+   yields=Yields(at_yield=[("delay-nonnegative", lambda s, y: _delay(y) >= 0)], stable=[("Entity", "_clock")]),
+   ensures=[
+    ("written-through", lambda s: has(s.self._backing_store._data, s.key)
+        & mk_bool(mval(s.self._backing_store._data, s.key) == s.value.t)),
+    ("entry-holds-value-stamped-now", lambda s: has(s.self._cache, s.key)
+        & mk_bool(e_val(s.self._cache, s.key) == s.value.t)
+        & mk_bool(e_at(s.self._cache, s.key) == num(now_ns(s.self)))),
+])
